@@ -49,6 +49,10 @@ CHECKS = {
          "TLC enumerates 8,686 (32,740) transactions over the product of input/output counts, value classes incl. totals crossing MAX_MONEY only cumulatively, duplicate outpoints at every position pair, coinbase script lengths 0/1/2/100/101, null and hash-null-only outpoints and size classes (total = 1,000,000, stripped > 1,000,000) for BTC and GRS, with the verdict Reject / Accept / unconstrained; pycoin must reject every Reject, accept every Accept, leave the transaction's bytes unchanged and never count a coinbase as unsigned; 600 (6,000) seeded checks are validated as traces.",
          "Trusted: TLC/SANY. Any exception out of check() counts as rejection. is_coinbase() on non-coinbase transactions is an observation only.",
          "DESIGN.md section 4 C20, notes/C20.md"),
+ "C10": ("TLA+ specs KeyEnc (SEC validity = length/prefix table x coordinates < p x on-curve x parity over toy curves, strict and hybrid modes; WIF payload structure; key construction ranges) and DerSig (DER parser state machine collecting deviations, minimal encoder); TLC lemmas (unique encoding, round trips, trailing bytes); every short byte string enumerated by TLC and replayed on sec_to_public_pair / sigdecode_der; secp256k1 classes and WIF on 48 networks; recorded sessions validated by TLC trace specs",
+         "On toy curves whose SEC blobs are 2-5 bytes TLC enumerates EVERY byte string of length 0..2 (thorough 0..3: 17M blobs) with its verdict and decoded point, and all DER strings over a structural alphabet up to length 8; pycoin's sec_to_public_pair (strict and non-strict), Key/from_sec, sigdecode_der/sigencode_der must agree; on secp256k1 the same (length, prefix, x<p, on-curve, parity) classes are concretised, exponents {0,1,n-1,n,2^256-1} and off-curve points must raise the documented errors, and WIF round trips (compression flag, hash160, address) are checked on 48 networks; TLC lemmas give unique encoding and Decode(Encode(x)) = x; 435 (3,902) seeded sessions validated as traces.",
+         "Trusted: TLC/SANY. Off-curve uncompressed blobs are demanded to be refused by Key.from_sec/Key() and verify(), not by sec_to_public_pair itself (the property's anchors place on-curve validation in Key); lenient strict-DER decoding beyond trailing bytes is counted, not demanded. GRS-family networks cannot be imported here.",
+         "DESIGN.md section 4 C10, notes/C10.md"),
 }
 
 NOT_APPLICABLE = {
